@@ -46,16 +46,16 @@ def run(ctx):
                                 "%s calls io::Read::%s directly: chunking / Interrupted / error handling is no longer "
                                 "delegated to io::Bytes" % (where, c.get("method")), fn.loc(t.get("line")))
     r.floor("io-read-calls", n)
-    fld = None
     a = lexpr.adts.get("parse::read::IoRead")
-    if a:
-        for f in a["variants"][0]["fields"]:
-            if f["name"] == "iter":
-                fld = f["ty"]
-    if fld and "LineColIterator<std::io::Bytes<R>>" in fld:
-        r.ok("IoRead.iter : %s" % fld)
+    tys = [f["ty"] for f in a["variants"][0]["fields"]] if a else []
+    if not a:
+        r.anchor_missing("parse::read::IoRead")
+    elif any("LineColIterator<std::io::Bytes<R>>" in ty for ty in tys) and not any(
+            ty == "R" or ty.startswith("std::io::BufReader") for ty in tys):
+        r.ok("IoRead reaches its source only through a LineColIterator<io::Bytes<R>> field")
     else:
-        r.violation("parse::read::IoRead", "iter-type", "IoRead.iter is %r, not LineColIterator<io::Bytes<R>>" % fld)
+        r.violation("parse::read::IoRead", "iter-type", "IoRead's fields are %s: the source is not wrapped as "
+                    "LineColIterator<io::Bytes<R>> only" % tys)
 
     ioread_map(ctx, lexpr)
 
@@ -68,7 +68,7 @@ def run(ctx):
                                  "lexpr/src/datum.rs"),
         ("parse::error::Error", "std::io::Error"), exc, "a read failure")
     n += common.errdrop_scan(r3, serde, lambda f: common.in_file(f, "serde-lexpr/src/de.rs"),
-                             ("error::Error", "std::io::Error"), exc, "a read failure")
+                             ("error::Error", "std::io::Error"), exc, "a read failure", scope_gone=False)
     r3.floor("propagation-sites", n)
 
     sibling(ctx, lexpr)
@@ -82,6 +82,10 @@ def ioread_map(ctx, lexpr):
                                  "input, Some(Ok(b)) -> b")
     OPT, RES = "std::option::Option", "std::result::Result"
     e = Opq("io_error")
+    la_fields = common.fields_of_type(lexpr, "parse::read::IoRead", lambda ty: ty == "std::option::Option<u8>")
+    if not la_fields:
+        r.anchor_missing("the Option<u8> lookahead field of IoRead")
+        return
     cases = {
         "None": Adt(OPT, 0, []),
         "Some(Ok(b))": Adt(OPT, 1, [Adt(RES, 0, [77])]),
@@ -104,7 +108,7 @@ def ioread_map(ctx, lexpr):
                 return None
 
             def opaque(o):
-                if o.path and o.path[-1] == "ch":
+                if o.path and o.path[-1] in la_fields:
                     return Adt(OPT, 0, [])
                 return None
 
